@@ -59,6 +59,7 @@ type tcase struct {
 	Input   string            `json:"input"` // text | lineprotocol | none
 	Data    string            `json:"data"`
 	Format  string            `json:"format"` // json | lineprotocol
+	Missing bool              `json:"selected_script_missing,omitempty"`
 }
 
 type libOut struct {
@@ -235,6 +236,14 @@ func judge(t rk.Failer, slot string, c *tcase, nontrivial bool, labels ...string
 		rk.Fail(t, slot, c, "%s\nscript %s:\n%s\ninput(%s): %q\nbinary output:\n%s", fmt.Sprintf(format, a...), c.Name, c.Scripts[c.Name], c.Input, c.Data, clip(out))
 	}
 	switch {
+	case c.Missing:
+		if idx >= 0 {
+			fail("the selected script does not exist but the binary printed an output block")
+		}
+		if !strings.Contains(out, "ERROR") && !strings.Contains(strings.ToLower(out), "not found") && !strings.Contains(strings.ToLower(out), "no such file") {
+			fail("the selected script does not exist and the binary reported no error")
+		}
+		labels = append(labels, "outcome/missing-script")
 	case lib.loadErr != nil:
 		if idx >= 0 {
 			fail("the library rejects the script at load (%v) but the binary printed an output block", lib.loadErr)
@@ -410,6 +419,7 @@ var failingRun = []string{"x = 1 + \"a\"", "l = [1]\ny = l[5]", "z = 0\nq = 1 / 
 var failingLoad = []string{"nosuch()", "add_key()", "cast(a, \"zzz\")", "x = = 1", "break", "grok(_, \"%{NOSUCH}\")"}
 
 var lpInputs = []string{
+	"", "not line protocol at all", "cpu,host=h1", "cpu usage=", "# only a comment\n",
 	"cpu,host=h1 usage=1.5,n=3i,msg=\"x y\",ok=true 1600000000000000000\n",
 	"mem used=10i\n",
 	"disk,host=a,path=/ free=0.25,message=\"two words\",n=3i 1234567890123456789\ncpu second=1i 1\n",
@@ -475,6 +485,12 @@ func genCase(t *rapid.T) (*tcase, bool, []string) {
 			nontrivial = true
 			labels = append(labels, "script/uses-sibling")
 		}
+	case 5:
+		// the selected script does not exist (the workspace holds other scripts)
+		c.Scripts["present"+ext] = strings.Join(lines, "\n")
+		c.Missing = true
+		nontrivial = true
+		labels = append(labels, "script/selected-script-missing")
 	case 4:
 		if c.Mode == "workspace" {
 			lines = append(lines, "use(\"missing.p\")")
@@ -482,7 +498,9 @@ func genCase(t *rapid.T) (*tcase, bool, []string) {
 			labels = append(labels, "script/uses-missing")
 		}
 	}
-	c.Scripts[c.Name] = strings.Join(lines, "\n") + rapid.SampledFrom([]string{"", "\n"}).Draw(t, "eol")
+	if !c.Missing {
+		c.Scripts[c.Name] = strings.Join(lines, "\n") + rapid.SampledFrom([]string{"", "\n"}).Draw(t, "eol")
+	}
 	if c.Mode == "workspace" {
 		if rapid.Bool().Draw(t, "unrelated") {
 			c.Scripts["unrelated.p"] = "add_key(unrelated, 1)"
